@@ -323,6 +323,8 @@ structure Ctx where
   blobs : Std.HashMap (Nat × Nat × String) Blob
   numDocs : Nat
   chunkMode : Nat
+  /-- second pass only: read on past finding K1 (missing NST) so that the rest of the file is still judged -/
+  pastK1 : Bool := false
 
 def Ctx.blob (c : Ctx) (off len : Nat) (kind : String) : R Blob :=
   match c.blobs.get? (off, len, kind) with
@@ -601,7 +603,12 @@ def decThes (c : Ctx) (addr : Nat) : R Thes := do
     pure (kv.1, bm.nums.map (fun code => (code >>> 32, code % 2 ^ 32))))
   let tpos := p + vl
   if tpos > addr then throw s!"thesaurus at {tl}: FST ends at {tpos}, after its section record {addr}"
-  if tpos = addr then return { terms := terms, table := [] }
+  -- the documented layout shows the count NST of the id table in every thesaurus; the writer emits
+  -- nothing at all for an EMPTY table (finding K1: listed in KNOWN_FINDINGS.txt, not repaired)
+  if tpos = addr then
+    if c.pastK1 then return { terms := terms, table := [] }
+    else throw s!"K1-NST-MISSING thesaurus at {tl}: the id-to-term table is empty and its count field (NST) is not written"
+
   let (cnt, q0) ← uv b tpos
   if cnt > b.size then throw s!"thesaurus at {tl}: term table count {cnt} exceeds the file size"
   let mut q := q0
@@ -668,7 +675,7 @@ def decField (c : Ctx) (addr : Nat) : R FieldM := do
 
 def footerSize : Nat := 52
 
-def decodeBA (b : ByteArray) (blobs : List Blob) : R Seg := do
+def decodeBA (b : ByteArray) (blobs : List Blob) (pastK1 : Bool := false) : R Seg := do
   let n := b.size
   if n < footerSize then throw s!"file of {n} bytes is shorter than the footer"
   let f := n - footerSize
@@ -687,7 +694,7 @@ def decodeBA (b : ByteArray) (blobs : List Blob) : R Seg := do
   if dvo ≠ 0 then throw s!"footer: doc value offset {dvo}, expected 0"
   if numDocs > n then throw s!"footer: {numDocs} documents cannot fit in {n} bytes"
   if sio + 8 * numDocs > f then throw s!"footer: stored index [{sio},{sio + 8 * numDocs}) overlaps the footer"
-  let c : Ctx := { b := b, numDocs := numDocs, chunkMode := cm,
+  let c : Ctx := { b := b, numDocs := numDocs, chunkMode := cm, pastK1 := pastK1,
                    blobs := blobs.foldl (fun m bl => m.insert (bl.off, bl.len, bl.kind) bl) {} }
   let (nf, p) ← uv b secio
   if p + 8 * nf ≠ f then throw s!"sections index at {secio} with {nf} fields does not end at the footer ({f})"
@@ -990,7 +997,15 @@ def analyze (s : Seg) (got : String) : Option String :=
   | .error e => some s!"observation not parseable: {e}"
   | .ok (file, blobs) =>
     match decodeBA file blobs with
-    | .error e => some s!"file not decodable by the documented layout: {e}"
+    | .error e =>
+      if (e.splitOn "K1-NST-MISSING").length > 1 then
+        -- finding K1 and nothing else?  Read on past it: any other deviation is reported instead
+        match decodeBA file blobs true with
+        | .error e2 => some s!"file not decodable by the documented layout: {e2}"
+        | .ok dec => match firstDiff s dec with
+          | none => some s!"file not decodable by the documented layout: {e}"
+          | some d => some d
+      else some s!"file not decodable by the documented layout: {e}"
     | .ok dec => firstDiff s dec
 
 /-- `got` is the harness's observation for `dumpfile`; `s` the model's content of that file. -/
